@@ -103,7 +103,10 @@ def _case_of(f, c):
     for a in f.ancestors(c):
         if a['k'] == 'CaseStmt':
             return a.get('label') or (chr(a['charlabel']) if 'charlabel' in a else a.get('caseval'))
-    return 'line%s' % c.get('l')
+    # no enclosing case label: the ordinal of this call among the parser calls of the function (never a line number: instance
+    # keys must survive edits that move code)
+    calls = [m for m in f.walk() if is_call(m) and m.get('cn') in PARSERS]
+    return 'call#%d' % (1 + [id(m) for m in calls].index(id(c)) if any(m is c for m in calls) else 0)
 
 
 def rule_sign(rep, u):
